@@ -119,6 +119,8 @@ QJsonObject to_json(const Plan &p)
     s["clock_yield_pct"] = p.clock_yield_pct;
     if (p.io_yield_pct)
         s["io_yield_pct"] = p.io_yield_pct;
+    if (p.instr_yield_pp10k)
+        s["instr_yield_pp10k"] = p.instr_yield_pp10k;
     if (p.max_decisions != 20000)
         s["max_decisions"] = p.max_decisions;
     s["stall_tid"] = p.stall_tid;
@@ -168,6 +170,7 @@ bool from_json(const QJsonObject &o, Plan &p, std::string *err)
     p.time_adv_pct = s["time_adv_pct"].toInt(20);
     p.clock_yield_pct = s["clock_yield_pct"].toInt(0);
     p.io_yield_pct = s["io_yield_pct"].toInt(0);
+    p.instr_yield_pp10k = s["instr_yield_pp10k"].toInt(0);
     p.max_decisions = s["max_decisions"].toInt(20000);
     p.stall_tid = s["stall_tid"].toInt(-1);
     p.stall_from = s["stall_from"].toInt();
@@ -907,6 +910,39 @@ static Plan gen_C08T(Gen &g, Plan p)
     return p;
 }
 
+// C02, slice "two pipelines": two independently locked synchronous pipelines, each with a formatter and a
+// recording sink, used by different threads at the same time.  Nothing serialises them against each other,
+// so state that the library shares between pipelines (function-local statics, caches) is exposed; the
+// scheduler additionally takes decisions at function entries inside the library.
+static Plan gen_C02D(Gen &g, Plan p)
+{
+    p.target = "dual";
+    p.app = false;
+    p.poison = true;
+    p.root = Node();
+    p.root.kind = "pipe";
+    static const int pats[] = { 100, 100, 100, 100, 3, 1 }; // 100: "%{func}|%{message}" (cleaned-up function name), else menu
+    p.cfg["family"] = "two-pipelines";
+    p.cfg["pattern_a"] = pats[g.r.below(6)];
+    p.cfg["pattern_b"] = pats[g.r.below(6)];
+    int np = (int)g.r.range(2, 4);
+    for (int i = 0; i < np; i++)
+        p.producers.push_back(gen_producer(g, (int)g.r.range(2, 10), false, 10));
+    if (g.r.chance(1, 2))
+        p.main_ops.push_back(gen_log(g, false));
+    for (int i = 0; i < np; i++)
+        p.main_ops.push_back(mkop("spawn", i + 1));
+    if (g.r.chance(1, 2))
+        p.main_ops.push_back(gen_log(g, false));
+    p.main_ops.push_back(mkop("join", -1));
+    gen_sched(g, p, np);
+    static const int rates[] = { 0, 20, 100, 400 };
+    p.instr_yield_pp10k = rates[g.r.below(4)];
+    p.max_decisions = 60000;
+    p.spurious_pm = 0;
+    return p;
+}
+
 Plan generate(const std::string &prop, const std::string &tier, uint64_t seed)
 {
     Plan p;
@@ -917,6 +953,8 @@ Plan generate(const std::string &prop, const std::string &tier, uint64_t seed)
     g.r = Rng(sim::mix(seed, sim::fnv1a(prop.data(), prop.size())));
     g.thorough = tier == "thorough";
     g.bare_texts = prop == "C02" || prop == "C03" || prop == "C04";
+    if (prop == "C02D")
+        return gen_C02D(g, p);
     if (prop == "C02")
         return gen_C02(g, p);
     if (prop == "C03")
